@@ -110,7 +110,7 @@ def parseTable (s : String) : Option Tl.Table :=
 
 def showRes : Tl.Res → String
   | .ok a s => s!"ok.{a}.{s}"
-  | .raised s => s!"raised.{s}"
+  | .raised s g => if g then s!"guard.{s}" else s!"raised.{s}"
   | .oof => "oof"
 
 /-- inputs: `mode:hex,mode:hex,…` with mode `x` (boxed) or a schema index (bare) -/
